@@ -195,15 +195,45 @@ theorem numLoop_kp {cfg : Cfg} {sql : Sql} :
                 · exact numIdentTail_kp h
                 · exact finishNumber_kp h
 
+theorem valueLoop_kp {cfg : Cfg} {sql : Sql} :
+    ∀ (f : Nat) (st st' : St), valueLoop cfg sql f st = .ok st' → Keep st st' := by
+  intro f
+  induction f with
+  | zero => intro st st' h; simp only [valueLoop] at h; cases h
+  | succ f ih =>
+    intro st st' h
+    simp only [valueLoop] at h
+    split at h
+    · cases h; exact ⟨rfl, rfl⟩
+    · split at h
+      · obtain ⟨s, h1, h2⟩ := bind_ok h
+        exact (advanceAlnum_kp h1).trans (ih _ _ h2)
+      · cases h; exact ⟨rfl, rfl⟩
+
+theorem radixAdd_kp {cfg : Cfg} {sql : Sql} {st st' : St} {base : Nat} {ty : String}
+    (h : radixAdd cfg sql st base ty = .ok st') : Keep st st' := by
+  unfold radixAdd at h
+  split at h
+  · cases h
+  · exact add_kp h
+  · exact add_kp h
+
+theorem scanRadix_kp {cfg : Cfg} {sql : Sql} {st st' : St} {base : Nat} {ty : String}
+    (h : scanRadix cfg sql st base ty = .ok st') : Keep st st' := by
+  unfold scanRadix at h
+  obtain ⟨s, h1, h2⟩ := bind_ok h
+  obtain ⟨s2, h3, h4⟩ := bind_ok h2
+  exact ((advance_kp h1).trans (valueLoop_kp _ _ _ h3)).trans (radixAdd_kp h4)
+
 theorem scanNumber_kp {cfg : Cfg} {sql : Sql} {st st' : St} (h : scanNumber cfg sql st = .ok st') : Keep st st' := by
   unfold scanNumber at h
   split at h
   · split at h
-    · cases h
+    · exact scanRadix_kp h
     · exact add_kp h
   · split at h
     · split at h
-      · cases h
+      · exact scanRadix_kp h
       · exact add_kp h
     · exact numLoop_kp _ _ _ _ _ _ h
 
@@ -236,6 +266,16 @@ theorem scanIdentifier_kp {cfg : Cfg} {sql : Sql} {st st' : St} {e : String}
   obtain ⟨r, h3, h4⟩ := bind_ok h2
   exact ((advance_kp h1).trans (extractString_kp h3)).trans (add_kp h4)
 
+theorem stringAdd_kp {cfg : Cfg} {sql : Sql} {st st' : St} {ty : String} {text : List Char}
+    (h : stringAdd cfg sql st ty text = .ok st') : Keep st st' := by
+  unfold stringAdd at h
+  split at h
+  · split at h
+    · cases h
+    · exact add_kp h
+    · cases h
+  · exact add_kp h
+
 theorem stringBody_kp {cfg : Cfg} {sql : Sql} {st st' : St} {w : List Char} {e ty : String}
     (h : stringBody cfg sql st w e ty = .ok st') : Keep st st' := by
   unfold stringBody at h
@@ -243,9 +283,7 @@ theorem stringBody_kp {cfg : Cfg} {sql : Sql} {st st' : St} {w : List Char} {e t
   · cases h
   · obtain ⟨s, h1, h2⟩ := bind_ok h
     obtain ⟨r, h3, h4⟩ := bind_ok h2
-    split at h4
-    · cases h4
-    · exact ((advance_kp h1).trans (extractString_kp h3)).trans (add_kp h4)
+    exact ((advance_kp h1).trans (extractString_kp h3)).trans (stringAdd_kp h4)
 
 theorem scanString_kp {cfg : Cfg} {sql : Sql} {st st' : St} {w : List Char} {res : Res St}
     (h : scanString cfg sql st w = some res) (hr : res = .ok st') : Keep st st' := by
